@@ -212,6 +212,7 @@ class St:
 
 
 class VmWorld(HistoryWorld):
+    run_timeout = 20   # slowest legitimate run is well under 0.2 s
     name = 'VM'
     chunk = 50
     legs = {'quick': [('main', 30000)], 'thorough': [('main', 1000000)]}
